@@ -141,7 +141,7 @@ class ProxNewton(BaseSolver):
                 break
 
             # build working set
-            gsupp_size = penalty.generalized_support(w).sum()
+            gsupp_size = penalty.generalized_support(w[:n_features]).sum()
             ws_size = max(min(self.p0, n_features),
                           min(n_features, 2 * gsupp_size))
             # similar to np.argsort()[-ws_size:] but without sorting
@@ -184,7 +184,7 @@ class ProxNewton(BaseSolver):
                                 w=w, Xw=Xw)
 
                 if max(self.verbose-1, 0):
-                    p_obj = datafit.value(y, w, Xw) + penalty.value(w)
+                    p_obj = datafit.value(y, w, Xw) + penalty.value(w[:n_features])
                     print(
                         "PN iteration {}: {:.10f}, ".format(pn_iter+1, p_obj) +
                         "stopping crit in: {:.2e}".format(stop_crit_in)
@@ -195,7 +195,7 @@ class ProxNewton(BaseSolver):
                         print("Early exit")
                     break
 
-            p_obj = datafit.value(y, w, Xw) + penalty.value(w)
+            p_obj = datafit.value(y, w, Xw) + penalty.value(w[:n_features])
             p_objs_out.append(p_obj)
             if _verif.ON:
                 _verif.emit("outer_end", solver="ProxNewton", t=t, p_obj=p_obj,
